@@ -904,6 +904,31 @@ func (x *Exec) invoke(s *State, in ssa.Instruction, c *ssa.CallCommon, recv Val,
 		k(s, res)
 		return
 	}
+	if fc := x.ifaceContract(c); fc != nil && fc.Opts["devirt"] != "" {
+		// prefer the implementation's own contract when the path condition pins the dynamic type to
+		// exactly one implementer in the repository
+		var only types.Type
+		n := 0
+		for _, impl := range x.eng.implementers(c.Value.Type()) {
+			if x.feasible(s, Eq(ifTag(recv.T), IntLit(int64(x.eng.tagOf(impl))))) {
+				only = impl
+				n++
+			}
+		}
+		if n == 1 && !x.feasible(s, Not(Eq(ifTag(recv.T), IntLit(int64(x.eng.tagOf(only)))))) {
+			if m := x.eng.prog.LookupMethod(only, c.Method.Pkg(), c.Method.Name()); m != nil {
+				var rv Val
+				if isPointerLike(only) {
+					rv = tv(ifVal(recv.T), only)
+				} else {
+					_, unbox, srt := x.eng.boxFuns(only, x.mode)
+					rv = tv(App(unbox, srt, ifVal(recv.T)), only)
+				}
+				x.staticCall(s, in, m, append([]Val{rv}, args...), nil, k)
+				return
+			}
+		}
+	}
 	if fc := x.ifaceContract(c); fc != nil {
 		// interface-level contract: a synthetic function value carries the signature
 		m := x.eng.prog.NewFunction(c.Method.Name(), c.Method.Type().(*types.Signature), "interface method")
